@@ -9,7 +9,7 @@ namespace {
 template <class T> T pickv(std::initializer_list<T> l, Rng &r) { return *(l.begin() + r.below(l.size())); }
 
 enum ItemKind {
-    IT_I32 = 0, IT_U32B, IT_I64, IT_U64B, IT_BOOL, IT_MNEM, IT_TEXT, IT_DOUBLE, IT_FLOAT, IT_BLOCK, IT_SBLOCK, IT_ARRAY, IT_HEADER, IT_SMALL, IT_PUSH, IT_NKINDS
+    IT_I32 = 0, IT_U32B, IT_I64, IT_U64B, IT_BOOL, IT_MNEM, IT_TEXT, IT_DOUBLE, IT_FLOAT, IT_BLOCK, IT_SBLOCK, IT_ARRAY, IT_HEADER, IT_SMALL, IT_PUSH, IT_STRAY, IT_NKINDS
 };
 enum ElemType { E_I8 = 0, E_U8, E_I16, E_U16, E_I32, E_U32, E_I64, E_U64, E_F32, E_F64, E_NTYPES };
 const size_t ELEM_SIZE[E_NTYPES] = {1, 1, 2, 2, 4, 4, 8, 8, 4, 8};
@@ -233,6 +233,8 @@ struct Run {
                     free(tmp);
                     (void) r;
                     check_call("SCPI_ResultArbitraryBlock", ob, enc_block_header(it.s.size()) + it.s, true, true);
+                    block_remaining = 0;   // a new header replaces whatever was announced before, and this block is complete
+                    block_open = false;
                     COUNT("blocks_one_shot");
                     break;
                 }
@@ -288,6 +290,35 @@ struct Run {
                     if (block_open) COUNT("probe_block_left_incomplete");
                     break;
                 }
+                case IT_STRAY: {
+                    // a data call on whatever block state the previous calls left: continues an open block, otherwise it is beyond the announced length
+                    std::string piece = it.s.substr(0, 64);
+                    size_t n = piece.size();
+                    size_t eb = w.errs.size();
+                    char *tmp = (char *) malloc(n);
+                    memcpy(tmp, piece.data(), n);
+                    size_t r = SCPI_ResultArbitraryBlockData(c, tmp, n);
+                    free(tmp);
+                    COUNT("stray_block_data_calls");
+                    if (n > block_remaining) {
+                        COUNT("fault_overlength_block_data");
+                        if (!block_open) COUNT("probe_data_after_complete_block");
+                        bool raised = false;
+                        for (size_t e = eb; e < w.errs.size(); e++) raised |= w.errs[e].code != 0;
+                        if (c17 && !v.violated && (w.out.size() != ob || r != 0 || !raised))
+                            v.fail("overlength-accepted", fmt("n=%zu remaining=%llu open=%d", n, (unsigned long long) block_remaining, block_open),
+                                   fmt("block data of %zu bytes with %llu bytes announced and still open: wrote %zu bytes, returned %zu, error raised: %d", n,
+                                       (unsigned long long) block_remaining, w.out.size() - ob, r, raised));
+                        unit_pushed |= raised;
+                    } else if (n > 0 || block_open) {
+                        bool was_open = block_open;
+                        block_remaining -= n;
+                        bool completes = was_open && block_remaining == 0;
+                        if (completes) block_open = false;
+                        check_call("SCPI_ResultArbitraryBlockData", ob, piece, completes, false);
+                    }
+                    break;
+                }
                 case IT_ARRAY: {
                     int et = (int) clampl(it.arg(1), 0, E_NTYPES - 1);
                     int fmtv = (int) clampl(it.arg(2), 0, 2);
@@ -334,6 +365,8 @@ struct Run {
                         std::string body;
                         for (size_t j = 0; j < cnt; j++) body += enc_elem_binary(bits[j], et, fmtv == 1);
                         check_call(fmt("binary-array et=%d fmt=%d n=%zu", et, fmtv, cnt), ob, enc_block_header(cnt * sz) + body, true, true);
+                        block_remaining = 0;
+                        block_open = false;
                         COUNT(fmtv == 1 ? "arrays_normal" : "arrays_swapped");
                         if (cnt == 0) COUNT("probe_empty_binary_array");
                         if (cnt * sz >= 100) COUNT("probe_three_digit_block_length");
@@ -663,6 +696,7 @@ void generate_output(Rng &r, const GenOpts &g, Plan &p, bool c17) {
         for (long j = 0; j <= ni; j++) {
             if (j == push_at) p.ops.push_back(Op("it", {IT_PUSH, -(long) r.range(200, 299)}));
             if (j < ni) gen_item(r, p, c17, c17 && r.chance(1, 3));
+            if (j < ni && c17 && r.chance(1, 5)) p.ops.push_back(Op("it", {IT_STRAY}, rand_bytes(r, r.range(1, 6))));
         }
     }
     long nm = r.chance(1, 2) ? 1 : r.range(2, 4);
@@ -723,7 +757,7 @@ const Property C17 = {
     gen_c17,
     exec_c17,
     {"arrays_normal", "arrays_swapped", "arrays_ascii", "blocks_streamed", "probe_zero_length_piece", "fault_overlength_block_data", "probe_block_left_incomplete",
-     "probe_empty_binary_array", "probe_three_digit_block_length", "probe_header_nine_digits", "block_headers_only"},
+     "probe_empty_binary_array", "probe_three_digit_block_length", "probe_header_nine_digits", "block_headers_only", "probe_data_after_complete_block"},
     "handler scripts emitting arrays of all ten element types in NORMAL/SWAPPED/ASCII (0..300 elements, boundary values), blocks one-shot and streamed with seeded piece "
     "sizes incl. zero-length pieces, incomplete and over-length data at any point, header-only calls up to 10^9-1, items after complete/incomplete blocks; every API call's "
     "bytes are compared with an independent shift-based encoder, over-length data must be refused. distinct_nontrivial = distinct canonical trace hashes.",
